@@ -1,9 +1,60 @@
 import TaurexModel.Proto
+import TaurexModel.Haze
+import TaurexModel.Ops.C01
 
 namespace Taurex.Ops.C19
-open Taurex.Proto
+open Taurex.Proto Taurex.Haze Taurex.Transmission Taurex.Ops.C01
 
-/-- operations of the C19 model served by `driver_c19` (filled in by the C19 check) -/
-def ops : List Op := []
+/-- `c19.cloud method rp rs z dz zb dens nwn P p0 rest` → trans[n][nwn] depth[nwn] -/
+def cloudOp (args : List String) : Option String :=
+  run (do
+    let m ← nat
+    let rp ← flt
+    let rs ← flt
+    let z ← listOf flt
+    let dz ← listOf flt
+    let zb ← listOf flt
+    let dens ← listOf flt
+    let nwn ← nat
+    let p ← listOf flt
+    let p0 ← flt
+    let rest ← listOf contribP
+    let n := z.length
+    if dz.length ≠ n ∨ zb.length ≠ n + 1 ∨ dens.length ≠ n ∨ p.length ≠ n then failure
+    let (fz, fdz, fzb, fd, fp) := (fn1 z, fn1 dz, fn1 zb, fn1 dens, fn1 p)
+    let tr := tab2 n nwn fun l wn => cloudyTrans (m != 0) rp n nwn fzb fz fdz fd fp p0 rest l wn
+    let ftr := fn2 tr
+    let d := (List.range nwn).map fun wn => depth rp rs n fz fdz (fun l => ftr l wn)
+    pure (fList (fList fF) tr ++ " " ++ fList fF d)) args
+
+/-- `c19.flat plev[n+1] bottomRaw topRaw mix` → sigma[n] start stop -/
+def flatOp (args : List String) : Option String :=
+  run (do
+    let plev ← listOf flt
+    let b ← flt
+    let t ← flt
+    let mix ← flt
+    if plev.length < 2 then failure
+    let n := plev.length - 1
+    let fp := fn1 plev
+    let sig := (List.range n).map fun l => flatSigma n fp b t mix l
+    pure (fList fF sig)) args
+
+/-- `c19.lee P[n] bottomRaw topRaw pi a q mix wn[nwn]` → sigma[n][nwn] -/
+def leeOp (args : List String) : Option String :=
+  run (do
+    let p ← listOf flt
+    let b ← flt
+    let t ← flt
+    let pi ← flt
+    let a ← flt
+    let q ← flt
+    let mix ← flt
+    let wn ← listOf flt
+    let n := p.length
+    if n = 0 then failure
+    pure (fList (fList fF) (tab2 n wn.length (leeSigma n (fn1 p) b t pi a q mix (fn1 wn))))) args
+
+def ops : List Op := [("c19.cloud", cloudOp), ("c19.flat", flatOp), ("c19.lee", leeOp)] ++ Taurex.Ops.C01.ops
 
 end Taurex.Ops.C19
